@@ -519,6 +519,45 @@ def check_debugger_histories_and_schedules(rec, rng):
         it, status, hd = run_wsgi_app(app, env)
         return status, b"".join(it)
 
+    # ---- the lock-out survives requests that carry a valid cookie (a browser tab that authenticated earlier)
+    app = DebuggedApplication(inner, evalex=True, pin_security=True)
+    app.pin_cookie_name  # noqa: B018
+    app.pin = "111-222-333"
+    good_cookie = f"{int(ft.now)}|{hash_pin('111-222-333')}"
+
+    def pinauth(pin, cookie=None):
+        env = create_environ("/", query_string={"__debugger__": "yes", "cmd": "pinauth", "pin": pin, "s": app.secret})
+        env["HTTP_HOST"] = "localhost"
+        if cookie:
+            env["HTTP_COOKIE"] = f"{app.pin_cookie_name}={cookie}"
+        it, status, hd = run_wsgi_app(app, env)
+        return json.loads(b"".join(it))
+
+    for between in (("cookie-pinauth-right",), ("cookie-pinauth-wrong",), ("cookie-pinauth-wrong", "cookie-pinauth-right", "cookie-eval"), ()):
+        app._failed_pin_auth.value = 0
+        hist = ["wrong"] * 11
+        for _ in range(11):
+            pinauth("000-000-000")
+        locked = pinauth("111-222-333")
+        for step in between:
+            hist.append(step)
+            if step == "cookie-eval":
+                spy_ = SpyFrame()
+                app.frames[777] = spy_
+                env = create_environ("/", query_string={"__debugger__": "yes", "cmd": "1+1", "frm": "777", "s": app.secret})
+                env["HTTP_HOST"] = "localhost"
+                env["HTTP_COOKIE"] = f"{app.pin_cookie_name}={good_cookie}"
+                b"".join(run_wsgi_app(app, env)[0])
+            else:
+                pinauth("111-222-333" if step.endswith("right") else "123-123-123", cookie=good_cookie)
+        after = pinauth("111-222-333")
+        rec.case()
+        rec.nontrivial(("lockout-with-cookie-requests", between))
+        rec.observe("lockouts_followed_by_cookie_requests")
+        if locked.get("auth") or after.get("auth"):
+            rec.violation("C20/PIN-LOCKOUT-BYPASS", f"11 wrong PINs, then the right one ({locked}), then requests carrying a valid cookie {list(between)!r}, then the right PIN without a cookie: {after}",
+                          {"part": "pin", "history": hist + ["right"]}, monitor="counter-model")
+            break
     # ---- the PIN changes
     app = DebuggedApplication(inner, evalex=True, pin_security=True)
     app.pin_cookie_name  # noqa: B018  (computing the cookie name also generates the PIN: do it before choosing ours)
